@@ -315,6 +315,56 @@ theorem row_le_current (atRequest : ChangeID) (later : List Ev) (h : Inv atReque
   obtain ⟨_, m2, _⟩ := run_mono atRequest later h he
   exact VV.versionOf_le_of_le m2 (fun a y hy => ((inv_run atRequest later h he).1 a y hy).1) a
 
+/-! ### the merge of vectors is a least upper bound; coverage is monotone (added; tie: engine `time`, `VV.max` lines) -/
+
+/-- `Max` is the LEAST upper bound: anything that dominates both dominates the merge (a replica's vector is
+    never larger than what the changes it applied account for) -/
+theorem vv_max_lub {v o w : VV} (hv : VV.le v w) (ho : VV.le o w) : VV.le (v.max o) w := by
+  intro a x h
+  rcases VV.max_entry_cases v o a x h with h1 | h1
+  · exact hv a x h1
+  · exact ho a x h1
+
+/-- the order in which two vectors are merged does not matter, entry by entry -/
+theorem vv_max_get_comm (v o : VV) (a : Actor) : (v.max o).get? a = (o.max v).get? a := by
+  rw [VV.get?_max, VV.get?_max]
+  cases hv : v.get? a <;> cases ho : o.get? a <;> simp [VV.maxVal, hv, ho, Int.max_comm]
+
+/-- merging a vector again changes no entry (a re-delivered change does not move the clock) -/
+theorem vv_max_get_idem (v o : VV) (a : Actor) : ((v.max o).max o).get? a = (v.max o).get? a := by
+  rw [VV.get?_max (v.max o) o, VV.get?_max v o]
+  cases hv : v.get? a <;> cases ho : o.get? a <;> simp [VV.maxVal, ho, Int.max_assoc]
+
+theorem vv_max_get_assoc (u v w : VV) (a : Actor) : ((u.max v).max w).get? a = (u.max (v.max w)).get? a := by
+  rw [VV.get?_max (u.max v) w, VV.get?_max u v, VV.get?_max u (v.max w)]
+  cases hu : u.get? a <;> cases hv : v.get? a <;> cases hw : w.get? a <;>
+    simp [VV.maxVal, VV.get?_max, hv, hw, Int.max_assoc]
+
+/-- coverage is monotone: a larger vector covers every ticket a smaller one covers … -/
+theorem covers_mono {v w : VV} (h : VV.le v w) (t : Ticket) (hc : v.equalToOrAfter t = true) :
+    w.equalToOrAfter t = true := by
+  unfold VV.equalToOrAfter at hc ⊢
+  cases hv : v.get? t.actor with
+  | none => simp [hv] at hc
+  | some l =>
+    simp only [hv, decide_eq_true_eq] at hc
+    obtain ⟨y, hy, hle⟩ := h _ _ hv
+    simp only [hy, decide_eq_true_eq]; omega
+
+/-- … hence a replica that covers a ticket covers it after any further well-formed events: what was purgeable
+    once stays purgeable, GC decisions are never revoked by later clock movement -/
+theorem covers_forever (id : ChangeID) (later : List Ev) (h : Inv id) (he : ∀ e ∈ later, EvOk e) (t : Ticket)
+    (hc : id.vv.equalToOrAfter t = true) : (run id later).vv.equalToOrAfter t = true :=
+  covers_mono (run_mono id later h he).2.1 t hc
+
+example : VV.le [(1, 2)] [(2, 9), (1, 3)] ∧ VV.equalToOrAfter [(1, 2)] ⟨2, 0, 1⟩ = true := by
+  refine ⟨?_, by decide⟩
+  intro a x h
+  simp only [VV.get?] at h
+  split at h
+  · rename_i ha; subst ha; injection h with h; subst h; exact ⟨3, by decide, by decide⟩
+  · cases h
+
 /-- T-gen tie: the initial values the model starts from are the constants in the source. -/
 theorem consts_match :
     ChangeID.initial.lamport = (Generated.Consts.initialLamport : Int) ∧
